@@ -43,6 +43,9 @@ def setup(S, tier, R):
             cache[inst.id] = r
         return r
     ctx.hooks["may_panic"] = may_panic
+    # loops written directly in verify (e.g. the norm accumulated by `for` loops instead of `.sum()`) run over vectors whose
+    # length is the constant N: keep their trips apart, so that an accumulator is bounded by N times its largest term
+    ctx.hooks["unroll"] = lambda fr, h: 1100 if fr.inst.name.startswith("falcon_rust::falcon::verify::<") else 0
 
 
 def lengths(kind, N):
